@@ -8,7 +8,7 @@ LEVEL = "exploration"
 RULE = ("Bounded-exhaustive: every sequence of length 0..N over link kinds {await coroutine, await types.coroutine "
         "generator, __await__ returning a coroutine wrapper, __await__ running a delegating generator, asend(None), asend(<an async generator object>), __anext__, "
         "async for, athrow, aclose} x terminal {trap, plain-iterator leaf, falsy future-like leaf that is its own iterator} x outer kind {coroutine, generator-based "
-        "coroutine} x {links suspend first themselves, or not}; plus pure yield-from generator chains; every suspension "
+        "coroutine} x {links suspend first themselves, or not}; plus pure yield-from generator chains, plus nine deep chains (60-150 links, plain and mixed); every suspension "
         "point k of each (chain rebuilt and advanced k steps), plus the exhausted state. Oracle: frames and line numbers of "
         "the traceback of an exception thrown into the root right after extraction. evaluations = (chain, position) "
         "observations; distinct_nontrivial = distinct chain specs with at least one link.")
@@ -140,7 +140,8 @@ def run(ctx):
     # the unwind oracle listens to every frame exit during the throw: keep the cyclic collector (which may
     # finalise async generators of earlier cases at any moment) out of that window
     gc.disable()
-    for spec in cs.specs(N):
+    import itertools
+    for spec in itertools.chain(cs.long_specs(), cs.specs(N)):
         idx += 1
         if not ctx.mine(idx):
             continue
